@@ -219,9 +219,12 @@ def main(ctx):
     for n, wu, ws in spaces:
         total = 1 << nbits(n, wu, ws)
         chunk = max(1, total // 32)
+        # quick: the 2^20 maps over four modules are sampled (the first
+        # 1/32 of each of 32 slices: all high-bit patterns, low bits swept)
+        width = chunk // 32 if (ctx.quick and n >= 4) else chunk
         for lo in range(0, total, chunk):
             jobs.append(("enum_batch", {"n": n, "lo": lo,
-                                        "hi": min(total, lo + chunk),
+                                        "hi": min(total, lo + width),
                                         "unknown": wu, "self": ws}))
     # the same spaces (n <= 3 exhaustively) with every ignore-list subset
     # of {listed names, unknown name}; n = 4 with three ignore lists
@@ -236,11 +239,11 @@ def main(ctx):
                                             "ignore": list(ign)}))
     for ign in (["a"], [UNKNOWN], ["b", UNKNOWN]):
         total = 1 << nbits(4, True, True)
-        step = 16 if ctx.quick else 1
         chunk = max(1, total // 16)
-        for lo in range(0, total, chunk * step):
+        width = chunk // 128 if ctx.quick else chunk
+        for lo in range(0, total, chunk):
             jobs.append(("enum_batch", {"n": 4, "lo": lo,
-                                        "hi": min(total, lo + chunk),
+                                        "hi": min(total, lo + width),
                                         "unknown": True, "self": True,
                                         "ignore": ign}))
     nrand = 20 if ctx.quick else 64
@@ -263,7 +266,8 @@ def main(ctx):
     ctx._distinct = set(range(distinct))
     ctx.extra["exhaustive"] = True
     ctx.extra["exhaustive_bound"] = [
-        "n=%d unknown=%s self_loops=%s" % s for s in spaces]
+        "n=%d unknown=%s self_loops=%s" % s for s in spaces
+        if not (ctx.quick and s[0] >= 4)]
     if ctx.counters.get("contract_evaluations", 0) == 0:
         ctx.inconclusive("contract never evaluated (sort_modules rebound?)")
     ctx.assumptions.append("ModuleManager.get() singleton state (ignores) is "
